@@ -42,29 +42,30 @@ type RecView struct {
 }
 
 type ISnap struct {
-	I        string `json:"i"`
-	IsLeader bool   `json:"l"`
-	Token    string `json:"tok"`
-	LeaderID string `json:"lid"`
-	State    string `json:"st"`
-	SIsLead  bool   `json:"sl"`
-	SToken   string `json:"stok"`
-	SLeader  string `json:"slid"`
-	SRev     uint64 `json:"srev"`
-	Blocked  bool   `json:"blocked,omitempty"` // Status() did not return
-	Fine     bool   `json:"fine,omitempty"`    // taken inside a fine-mode window (a goroutine may be parked inside a critical section)
-	Gauge    int    `json:"g"`                 // last value of the is-leader gauge (-1 = never set)
-	NProm    int    `json:"np"`
-	NDem     int    `json:"nd"`
-	InStop   bool   `json:"instop,omitempty"`
-	StopDone bool   `json:"stopdone,omitempty"`
-	Started  bool   `json:"started,omitempty"`
-	Cut      bool   `json:"cut,omitempty"`
-	WQ       int    `json:"wq"`               // undelivered events of the instance's active watcher (-1: none active)
-	WDeliv   int    `json:"wd"`               // events delivered to it
-	Pend     int    `json:"pend"`             // pending gated ops of the instance
-	OwnRev   uint64 `json:"ownrev,omitempty"` // revision of the instance's latest acknowledged successful write
-	WOpen    int    `json:"wopen,omitempty"`  // watchers of the instance that were handed out and never stopped
+	I          string `json:"i"`
+	IsLeader   bool   `json:"l"`
+	Token      string `json:"tok"`
+	LeaderID   string `json:"lid"`
+	State      string `json:"st"`
+	SIsLead    bool   `json:"sl"`
+	SToken     string `json:"stok"`
+	SLeader    string `json:"slid"`
+	SRev       uint64 `json:"srev"`
+	Blocked    bool   `json:"blocked,omitempty"`     // Status() did not return
+	StopFailed bool   `json:"stop_failed,omitempty"` // a shutdown was begun and returned an error: incomplete
+	Fine       bool   `json:"fine,omitempty"`        // taken inside a fine-mode window (a goroutine may be parked inside a critical section)
+	Gauge      int    `json:"g"`                     // last value of the is-leader gauge (-1 = never set)
+	NProm      int    `json:"np"`
+	NDem       int    `json:"nd"`
+	InStop     bool   `json:"instop,omitempty"`
+	StopDone   bool   `json:"stopdone,omitempty"`
+	Started    bool   `json:"started,omitempty"`
+	Cut        bool   `json:"cut,omitempty"`
+	WQ         int    `json:"wq"`               // undelivered events of the instance's active watcher (-1: none active)
+	WDeliv     int    `json:"wd"`               // events delivered to it
+	Pend       int    `json:"pend"`             // pending gated ops of the instance
+	OwnRev     uint64 `json:"ownrev,omitempty"` // revision of the instance's latest acknowledged successful write
+	WOpen      int    `json:"wopen,omitempty"`  // watchers of the instance that were handed out and never stopped
 }
 
 type Term struct {
@@ -90,6 +91,7 @@ type Inst struct {
 	partitioned bool
 	inStopCall  int
 	stopDone    bool // a stop call returned nil and no Start since
+	stopFailed  bool // a StopWithContext call returned an error (time-out, cancelled context) and no Start since
 
 	gauge       int
 	nProm       int
@@ -435,6 +437,7 @@ func (w *World) callAPI(in *Inst, it *Item) string {
 		if err == nil {
 			in.started = true
 			in.stopDone = false
+			in.stopFailed = false
 			if in.spec.Monitored && in.notifyQ == nil {
 				in.notifyQ = make(chan string, 64)
 				go w.dispatcher(in)
@@ -465,6 +468,9 @@ func (w *World) callAPI(in *Inst, it *Item) string {
 		in.inStopCall--
 		if err == nil {
 			in.stopDone = true
+		} else if err != leader.ErrAlreadyStopped {
+			// timed out or cancelled: the shutdown was begun and not completed
+			in.stopFailed = true
 		}
 		w.unlock()
 		return errStr(err)
